@@ -779,47 +779,54 @@ structure BuildOpts where
   useAuth : Bool               -- !option.UseFilterState
 deriving Repr, Inhabited
 
+/-- Number of principal-side rules coming from `when` conditions (shared by all `from` entries). -/
+def nBasePrincipals (pns : Str) (r : Rule) : Nat :=
+  match baseRules pns r.whens [] [] with
+  | some (_, b) => b.length
+  | none => 0
+
 /-- The body of the rule loop of `Builder.build` for one rule: the generated Envoy policy, if any. -/
 def compileRule (o : BuildOpts) (allow : Bool) (pns : Str) (r : Rule) : Option EPolicy :=
   match newModel pns r with
   | none => none
   | some m =>
-    generate (migrateTrustDomain o.bundle
-      (match baseRules pns r.whens [] [] with | some (_, b) => b.length | none => 0) m) o.forTCP o.useAuth allow
+    generate (migrateTrustDomain o.bundle (nBasePrincipals pns r) m) o.forTCP o.useAuth allow
 
-def compileRules (o : BuildOpts) (allow : Bool) (p : Policy) :
-    List Rule → Nat → List (Str × EPolicy) → List (Str × EPolicy)
-  | [], _, acc => acc
-  | r :: rs, i, acc =>
+/-- The entries the rule loop of `Builder.build` writes for the rules of one policy (rule index in
+    the name; a rule whose model or generation fails is skipped). -/
+def ruleEntries (o : BuildOpts) (allow : Bool) (p : Policy) : List Rule → Nat → List (Str × EPolicy)
+  | [], _ => []
+  | r :: rs, i =>
     match compileRule o allow p.ns r with
-    | some e => compileRules o allow p rs (i + 1) (upsert acc (policyName p.ns p.name i) e)
-    | none => compileRules o allow p rs (i + 1) acc
+    | some e => (policyName p.ns p.name i, e) :: ruleEntries o allow p rs (i + 1)
+    | none => ruleEntries o allow p rs (i + 1)
 
-/-- All entries one policy contributes to `currentRule.Policies`. -/
-def compilePolicy (o : BuildOpts) (allow : Bool) (p : Policy) (acc : List (Str × EPolicy)) : List (Str × EPolicy) :=
-  if p.rules.isEmpty then upsert acc (policyName p.ns p.name 0) rbacPolicyMatchNever
-  else compileRules o allow p p.rules 0 acc
+/-- All entries one policy contributes to `currentRule.Policies` (a rule-less policy contributes the
+    policy that never matches). -/
+def policyEntries (o : BuildOpts) (allow : Bool) (p : Policy) : List (Str × EPolicy) :=
+  if p.rules.isEmpty then [(policyName p.ns p.name 0, rbacPolicyMatchNever)]
+  else ruleEntries o allow p p.rules 0
+
+/-- Successive Go map assignments. -/
+def upsertAll (acc : List (Str × EPolicy)) (entries : List (Str × EPolicy)) : List (Str × EPolicy) :=
+  entries.foldl (fun a e => upsert a e.1 e.2) acc
 
 structure Built where
   rules : Option RBAC
   shadow : Option RBAC
 deriving Repr, Inhabited
 
-def buildLoop (o : BuildOpts) (allow : Bool) :
-    List Policy → List (Str × EPolicy) → List (Str × EPolicy) → Bool → Bool →
-    (List (Str × EPolicy) × List (Str × EPolicy) × Bool × Bool)
-  | [], enf, sh, he, hd => (enf, sh, he, hd)
-  | p :: ps, enf, sh, he, hd =>
-    if p.dryRun then buildLoop o allow ps enf (compilePolicy o allow p sh) he true
-    else buildLoop o allow ps (compilePolicy o allow p enf) sh true hd
-
-/-- `Builder.build(policies, action, forTCP, logger)` for the non-CUSTOM builder. -/
+/-- `Builder.build(policies, action, forTCP, logger)` for the non-CUSTOM builder: dry-run policies
+    fill `shadowRules`, the others `enforceRules`; a map that received no policy is nil. -/
 def buildAction (o : BuildOpts) (action : RAction) (policies : List Policy) : Option Built :=
   if policies.isEmpty then none
   else
-    let r := buildLoop o (action == .allow) policies [] [] false false
-    some { rules := if r.2.2.1 then some ⟨action, r.1⟩ else none,
-           shadow := if r.2.2.2 then some ⟨action, r.2.1⟩ else none }
+    some { rules := if policies.any (fun p => !p.dryRun) then
+                      some ⟨action, upsertAll [] ((policies.filter (fun p => !p.dryRun)).flatMap (policyEntries o (action == .allow)))⟩
+                    else none,
+           shadow := if policies.any (·.dryRun) then
+                      some ⟨action, upsertAll [] ((policies.filter (·.dryRun)).flatMap (policyEntries o (action == .allow)))⟩
+                    else none }
 
 /-- `shadowRuleStatPrefix` (a nil RBAC reports action ALLOW). -/
 def shadowRuleStatPrefix : Option RBAC → Str
